@@ -68,7 +68,7 @@ SrcFmt(route) == CASE route = "parsed_nexus" -> "nexus" [] route = "parsed_phyli
                    [] route = "parsed_fasta" -> "fasta" [] route \in {"parsed_nexml", "typed_self_concatenated", "typed_self_extended"} -> "nexml"
                    [] OTHER -> ""
 RouteVariants(t) ==
-    {[route |-> r, src |-> D0] : r \in {"from_dict", "concatenated", "exported"}
+    {[route |-> r, src |-> D0] : r \in {"from_dict", "concatenated", "exported", "observed_then_rows", "observed_then_columns"}
                                      \cup (IF Supports("nexml", t) THEN {"exported_typed", "typed_self_concatenated", "typed_self_extended"} ELSE {})}
     \cup UNION {{[route |-> ParsedRoute(f), src |-> l] : l \in SourceLayouts(f)} : f \in {g \in Formats : Supports(g, t)}}
 
